@@ -164,7 +164,7 @@ class expect(object):
 def run(chk):
     quick = chk.tier == "quick"
     engine_props.start_scenario_orig = getattr(engine_props, "start_scenario_orig", engine_props.start_scenario)
-    engine_props.start_scenario = lambda scn: start_with_failures(scn) if scn.extra.get("fail_payloads") else engine_props.start_scenario_orig(scn)
+    engine_props.start_scenario = lambda scn, redis=False: start_with_failures(scn) if scn.extra.get("fail_payloads") else engine_props.start_scenario_orig(scn, redis=redis)
     scns = scenarios(chk.rng, quick)
     engine_props.run_property(
         chk, "C06", ["C02", "C03", "C09", "C11", "C06"], scns=scns, n_rand=(5 if quick else 60), expect=expect, skip_multi=False,
@@ -178,7 +178,7 @@ def run(chk):
 
 def replay(chk, path):
     engine_props.start_scenario_orig = getattr(engine_props, "start_scenario_orig", engine_props.start_scenario)
-    engine_props.start_scenario = lambda scn: start_with_failures(scn) if scn.extra.get("fail_payloads") else engine_props.start_scenario_orig(scn)
+    engine_props.start_scenario = lambda scn, redis=False: start_with_failures(scn) if scn.extra.get("fail_payloads") else engine_props.start_scenario_orig(scn, redis=redis)
     with open(path) as f:
         rp = json.load(f)
     name = rp["case"]["scenario"]
